@@ -211,6 +211,9 @@ impl Prop for C04 {
     fn id(&self) -> &'static str {
         "C04"
     }
+    fn fuzz_target(&self) -> Option<&'static str> {
+        Some("tape")
+    }
     fn rule(&self) -> String {
         "generated transition systems x unrolling depth 0-5 x entry point (init_at(0) + unrolls; init_at(s>0) + unrolls as PDR does), driven through the public UnrollSmtEncoding / TransitionSystemEncoding API with an in-process recording SolverContext (text from the real serialize_cmd). (a) strict script check by the independent SMT-LIB front end: every symbol declared or defined exactly once before use, every term well-sorted; (b) faithfulness: a concrete execution from the reference simulator (random free initial values, inputs, next-less states; arbitrary state at the entry step when s>0) is bound to exactly the declare-const symbols, every define-fun is evaluated, and for every state, input, constraint and bad state e and every step j the symbol returned by get_signal_at(e, j) must have the value of e at step j (4 executions per script). Non-trivial: system in which a non-leaf signal is used by two of {init, next, other} and depth >= 1; distinct by hash of the script.".into()
     }
